@@ -3,7 +3,7 @@ from __future__ import annotations
 
 import ast
 
-from ..cfg import typestate, witness_path
+from ..cfg import KILL, typestate, witness_path
 from ..core import INCONCLUSIVE, OK, VIOLATION, Ctx, is_self_attr
 from ..model import AnalysisError, body_walk, norm
 from . import c05
@@ -325,6 +325,8 @@ def r06_4(ctx: Ctx):
                 return s
             if lab in (True, False):
                 if vg is not None:
+                    if g is True and vg is False and isinstance(n.ast, ast.Name):
+                        return KILL  # the name holds the verdict observed true on this path: infeasible
                     g = vg
                 if vl is not None:
                     verdict = vl
